@@ -148,9 +148,25 @@ func C01(c *fw.Ctx) {
 			visit(tc)
 		}
 	})
-	walkTokens(c, exprAlphabet(), exprLen, func(tc tokCase) {
-		if len(tc.Syms) > redLen {
-			visit(tc)
+	// the expression alphabet also visits what the grammar does NOT derive (a dead token, then an
+	// identifier / number and a ';'): if the real parser accepts such a text it has given a tree to a
+	// program for which the ladder prescribes none
+	walkTokensExt(c, exprAlphabet(), exprLen, []tokSym{{"IDENT", "a"}, {"NUMBER", "1"}}, func(tc tokCase) {
+		if tc.Accepted {
+			if len(tc.Syms) > redLen {
+				visit(tc)
+			}
+			return
+		}
+		if tc.Dead >= len(tc.Syms)-1 || tc.Syms[len(tc.Syms)-1].Kind != "SEMICOLON" || tc.Dead > exprLen-3 || tc.Syms[tc.Dead+1].Kind != "IDENT" {
+			return
+		}
+		src, _, _ := renderToks(tc.Syms, false)
+		_, _, o := h.Parse(src, h.Opts{Fuel: int64(200000 + 2000*len(src))})
+		c.Eval(src, true)
+		if o.Panic == "" && !o.Diverged && !o.HadError && o.Stderr == "" {
+			c.Violate(fw.Replay{Sig: "C01|accepted-without-a-ladder-tree|dead-" + tc.Syms[tc.Dead].Kind, What: "the parser accepts a text the documented grammar does not derive: no tree of the ladder corresponds to it",
+				Mode: "parse", Program: src, Expected: "rejected (the grammar stops at token " + tc.Syms[tc.Dead].Text + ")", Observed: "accepted without a diagnostic"})
 		}
 	})
 	stmtLen := 8
